@@ -31,6 +31,11 @@ structure Good (t : Tree) : Prop where
   cv : ∀ j c, c ∈ childrenOf t j → c < t.length
   kinds : ∀ j, 0 < j → j < t.length → ∃ k, kindAt t j = some k
   pars : ∀ j, 0 < j → j < t.length → ∃ g, parentOf t j = some g
+  -- child lists and parent pointers describe the same tree; declarations are leaves
+  cp : ∀ p c, c ∈ childrenOf t p → parentOf t c = some p
+  pc : ∀ j p, parentOf t j = some p → j ∈ childrenOf t p
+  cnd : ∀ p, (childrenOf t p).Nodup
+  ndp : ∀ p c, c ∈ childrenOf t p → ∀ n v, kindAt t p ≠ some (.decl n v)
 
 /-- `t'` extends `t`: old nodes keep kind and parent -/
 structure Ext (t t' : Tree) : Prop where
@@ -80,8 +85,24 @@ theorem parentOf_none_of_ge (t : Tree) (j : Nat) (h : t.length ≤ j) : parentOf
 theorem childrenOf_nil_of_ge (t : Tree) (j : Nat) (h : t.length ≤ j) : childrenOf t j = [] := by
   simp [childrenOf, List.getElem?_eq_none h]
 
-theorem good_addRaw (t : Tree) (gd : Good t) (k : Kind) (p : Nat) (hp : p < t.length) : Good (addRaw t k p).1 := by
-  refine ⟨?_, by rw [addRaw_length]; omega, ?_, ?_, ?_, ?_⟩
+theorem good_addRaw (t : Tree) (gd : Good t) (k : Kind) (p : Nat) (hp : p < t.length)
+    (hpk : ∀ n v, kindAt t p ≠ some (.decl n v)) : Good (addRaw t k p).1 := by
+  have hchild : ∀ j c, c ∈ childrenOf (addRaw t k p).1 j →
+      (j < t.length ∧ c ∈ childrenOf t j) ∨ (j = p ∧ c = t.length) := by
+    intro j c hc
+    rcases Nat.lt_trichotomy j t.length with h | h | h
+    · by_cases hjp : j = p
+      · subst hjp
+        rw [addRaw_childrenOf_eq t k j h] at hc
+        simp only [List.mem_append, List.mem_singleton] at hc
+        rcases hc with hc | hc
+        · exact Or.inl ⟨h, hc⟩
+        · exact Or.inr ⟨rfl, hc⟩
+      · rw [addRaw_childrenOf_ne t k p j h hjp] at hc
+        exact Or.inl ⟨h, hc⟩
+    · subst h; rw [addRaw_children_new] at hc; cases hc
+    · rw [childrenOf_nil_of_ge _ _ (by rw [addRaw_length]; omega)] at hc; cases hc
+  refine ⟨?_, by rw [addRaw_length]; omega, ?_, ?_, ?_, ?_, ?_, ?_, ?_, ?_⟩
   · rw [addRaw_kindAt t k p 0 gd.pos]; exact gd.root
   · intro j g hg
     rcases Nat.lt_trichotomy j t.length with h | h | h
@@ -114,9 +135,41 @@ theorem good_addRaw (t : Tree) (gd : Good t) (k : Kind) (p : Nat) (hp : p < t.le
     · rw [addRaw_parentOf t k p j h]; exact gd.pars j hj0 h
     · have : j = t.length := by omega
       subst this; exact ⟨p, addRaw_par_new t k p⟩
+  · intro j c hc
+    rcases hchild j c hc with ⟨hj, hc'⟩ | ⟨hj, hc'⟩
+    · rw [addRaw_parentOf t k p c (gd.cv j c hc')]; exact gd.cp j c hc'
+    · subst hj; subst hc'; exact addRaw_par_new t k j
+  · intro j g hg
+    rcases Nat.lt_trichotomy j t.length with h | h | h
+    · rw [addRaw_parentOf t k p j h] at hg
+      have hm := gd.pc j g hg
+      have hgl : g < t.length := by have := gd.po j g hg; omega
+      by_cases hgp : g = p
+      · subst hgp; rw [addRaw_childrenOf_eq t k g hgl]; simp [hm]
+      · rw [addRaw_childrenOf_ne t k p g hgl hgp]; exact hm
+    · subst h; rw [addRaw_par_new] at hg; injection hg with hg; subst hg
+      rw [addRaw_childrenOf_eq t k p hp]; simp
+    · rw [parentOf_none_of_ge _ _ (by rw [addRaw_length]; omega)] at hg; cases hg
+  · intro j
+    rcases Nat.lt_trichotomy j t.length with h | h | h
+    · by_cases hjp : j = p
+      · subst hjp
+        rw [addRaw_childrenOf_eq t k j h, List.nodup_append]
+        refine ⟨gd.cnd j, by simp, ?_⟩
+        intro a ha b hb
+        simp only [List.mem_singleton] at hb
+        have := gd.cv j a ha
+        omega
+      · rw [addRaw_childrenOf_ne t k p j h hjp]; exact gd.cnd j
+    · subst h; rw [addRaw_children_new]; exact List.nodup_nil
+    · rw [childrenOf_nil_of_ge _ _ (by rw [addRaw_length]; omega)]; exact List.nodup_nil
+  · intro j c hc n v
+    rcases hchild j c hc with ⟨hj, hc'⟩ | ⟨hj, _⟩
+    · rw [addRaw_kindAt t k p j hj]; exact gd.ndp j c hc' n v
+    · subst hj; rw [addRaw_kindAt t k j j hp]; exact hpk n v
 
 theorem good_init : Good Tree.init := by
-  refine ⟨rfl, by simp [Tree.init], ?_, ?_, ?_, ?_⟩
+  refine ⟨rfl, by simp [Tree.init], ?_, ?_, ?_, ?_, ?_, ?_, ?_, ?_⟩
   · intro j g hg
     cases j with
     | zero => simp [parentOf, Tree.init] at hg
@@ -127,6 +180,22 @@ theorem good_init : Good Tree.init := by
     | succ j => simp [childrenOf, Tree.init] at hc
   · intro j h0 hj; simp [Tree.init] at hj; omega
   · intro j h0 hj; simp [Tree.init] at hj; omega
+  · intro j c hc
+    cases j with
+    | zero => simp [childrenOf, Tree.init] at hc
+    | succ j => simp [childrenOf, Tree.init] at hc
+  · intro j g hg
+    cases j with
+    | zero => simp [parentOf, Tree.init] at hg
+    | succ j => simp [parentOf, Tree.init] at hg
+  · intro j
+    cases j with
+    | zero => simp [childrenOf, Tree.init]
+    | succ j => simp [childrenOf, Tree.init]
+  · intro j c hc
+    cases j with
+    | zero => simp [childrenOf, Tree.init] at hc
+    | succ j => simp [childrenOf, Tree.init] at hc
 
 /-! fuel -/
 
@@ -179,9 +248,10 @@ theorem ctxUp_eq_parent (t : Tree) (gd : Good t) (j g : Nat) (hj : j ≠ 0) (hp 
     simp only [ctxUpF, hj, if_false, hp]
   rw [h1, ctxUpF_fuel t gd j g hg]; rfl
 
-theorem fullCtx_new (t : Tree) (gd : Good t) (k : Kind) (p : Nat) (hp : p < t.length) :
+theorem fullCtx_new (t : Tree) (gd : Good t) (k : Kind) (p : Nat) (hp : p < t.length)
+    (hpk : ∀ n v, kindAt t p ≠ some (.decl n v)) :
     fullCtx (addRaw t k p).1 t.length = fullCtx t p ++ [k] := by
-  have gd' := good_addRaw t gd k p hp
+  have gd' := good_addRaw t gd k p hp hpk
   have h1 : ctxUpF (addRaw t k p).1 (t.length + 1) t.length = fullCtx (addRaw t k p).1 p :=
     ctxUp_eq_parent _ gd' t.length p (by have := gd.pos; omega) (addRaw_par_new t k p)
   simp only [fullCtx] at h1 ⊢
@@ -244,10 +314,11 @@ theorem entB_old_eq (t : Tree) (gd : Good t) (k : Kind) (p : Nat) (hp : p < t.le
   | none => rfl
   | some kp => by_cases h : kp.isDecl = true <;> simp [h]
 
-theorem viewB_addNd (t : Tree) (gd : Good t) (k : Kind) (hk : k.isDecl = false) (p : Nat) (hp : p < t.length) :
+theorem viewB_addNd (t : Tree) (gd : Good t) (k : Kind) (hk : k.isDecl = false) (p : Nat) (hp : p < t.length)
+    (hpk : ∀ n v, kindAt t p ≠ some (.decl n v)) :
     viewB (addRaw t k p).1 =
       viewB t ++ [(t.length, fullCtx t p ++ (if k.isAt then [k] else []), selOf k, [])] := by
-  have gd' := good_addRaw t gd k p hp
+  have gd' := good_addRaw t gd k p hp hpk
   unfold viewB
   rw [addRaw_length, List.range_succ, List.filterMap_append]
   congr 1
@@ -373,12 +444,16 @@ theorem addChild_landing (t : Tree) (gd : Good t) (P : Option Nat) (k : Kind) (h
     (hLnd : ∀ kL, kindAt t L = some kL → kL.isDecl = false) :
     LandOK t L k (addChild false t P k th) := by
   -- the plain case: the node is appended to the landing node
+  have hLk : ∀ n v, kindAt t L ≠ some (.decl n v) := by
+    intro n v h
+    have := hLnd _ h
+    simp [Kind.isDecl] at this
   have plain : LandOK t L k (addRaw t k L) := by
-    refine ⟨[], good_addRaw t gd k L hL, ext_addRaw t k L, by rw [addRaw_length]; rfl, Nat.le_refl _,
-      addRaw_kind_new t k L, fullCtx_new t gd k L hL, hasFollowingSibling_new t k L hL gd.pos,
+    refine ⟨[], good_addRaw t gd k L hL hLk, ext_addRaw t k L, by rw [addRaw_length]; rfl, Nat.le_refl _,
+      addRaw_kind_new t k L, fullCtx_new t gd k L hL hLk, hasFollowingSibling_new t k L hL gd.pos,
       ⟨L, addRaw_par_new t k L, fullCtx_ext t _ gd (ext_addRaw t k L) L hL, ?_,
         fun G hG => by rw [addRaw_parentOf t k L L hL] at hG; exact hG⟩,
-      by simp [viewB_addNd t gd k hk L hL, addRaw_snd], by simp⟩
+      by simp [viewB_addNd t gd k hk L hL hLk, addRaw_snd], by simp⟩
     by_cases h0 : L = 0
     · exact Or.inl h0
     · obtain ⟨kq, hkq⟩ := gd.kinds L (by omega) hL
@@ -410,7 +485,12 @@ theorem addChild_landing (t : Tree) (gd : Good t) (P : Option Nat) (k : Kind) (h
               addRaw (addRaw t pk g).1 k t.length := by
             simp only [addChild, hl, hs, if_true, hpk, hg, Bool.false_eq_true, if_false, addRaw_snd]
           rw [hr]
-          have gd1 := good_addRaw t gd pk g (by omega)
+          have hgk : ∀ n v, kindAt t g ≠ some (.decl n v) := gd.ndp g L (gd.pc L g hg)
+          have hck : ∀ n v, kindAt (addRaw t pk g).1 t.length ≠ some (.decl n v) := by
+            intro n v h
+            rw [addRaw_kind_new] at h; injection h with h; subst h
+            simp [Kind.isDecl] at hpknd
+          have gd1 := good_addRaw t gd pk g (by omega) hgk
           have ex1 := ext_addRaw t pk g
           have hlen1 : (addRaw t pk g).1.length = t.length + 1 := addRaw_length t pk g
           have hcp : t.length < (addRaw t pk g).1.length := by omega
@@ -419,13 +499,13 @@ theorem addChild_landing (t : Tree) (gd : Good t) (P : Option Nat) (k : Kind) (h
             rw [show ctxUpF t (L + 1) L = fullCtx t g from ctxUp_eq_parent t gd L g hL0 hg, hpk]
             rfl
           have fccp : fullCtx (addRaw t pk g).1 t.length = fullCtx t L := by
-            rw [fullCtx_new t gd pk g (by omega), fcL]
+            rw [fullCtx_new t gd pk g (by omega) hgk, fcL]
           have ex2 := ext_addRaw (addRaw t pk g).1 k t.length
           refine ⟨[(t.length, fullCtx t g ++ (if pk.isAt then [pk] else []), selOf pk, [])],
-            good_addRaw _ gd1 k t.length hcp, Ext.trans ex1 ex2, by rw [addRaw_length, addRaw_snd], ?_, ?_, ?_, ?_, ?_, ?_, ?_⟩
+            good_addRaw _ gd1 k t.length hcp hck, Ext.trans ex1 ex2, by rw [addRaw_length, addRaw_snd], ?_, ?_, ?_, ?_, ?_, ?_, ?_⟩
           · rw [addRaw_snd, hlen1]; omega
           · rw [addRaw_snd]; exact addRaw_kind_new _ k _
-          · rw [addRaw_snd, fullCtx_new _ gd1 k t.length hcp, fccp]
+          · rw [addRaw_snd, fullCtx_new _ gd1 k t.length hcp hck, fccp]
           · rw [addRaw_snd]
             exact hasFollowingSibling_new _ k t.length hcp (by omega)
           · refine ⟨t.length, by rw [addRaw_snd]; exact addRaw_par_new _ k _, ?_, Or.inr ⟨pk, ?_, hpk⟩, ?_⟩
@@ -434,7 +514,7 @@ theorem addChild_landing (t : Tree) (gd : Good t) (P : Option Nat) (k : Kind) (h
             · intro G hG
               rw [ex2.par t.length hcp, addRaw_par_new] at hG
               rw [hg]; exact hG
-          · rw [viewB_addNd _ gd1 k hk t.length hcp, viewB_addNd t gd pk hpknd g (by omega), addRaw_snd, hlen1, fccp]
+          · rw [viewB_addNd _ gd1 k hk t.length hcp hck, viewB_addNd t gd pk hpknd g (by omega) hgk, addRaw_snd, hlen1, fccp]
           · intro e he
             simp only [List.mem_singleton] at he
             subst he
@@ -583,13 +663,15 @@ theorem relB_seq (t : Tree) (P : Option Nat) (hP : ∀ p, P = some p → p < t.l
         · have := i2 e he; have := ex1.len; omega
 
 theorem addDecls_B (p : Nat) : ∀ (ds : List (String × String)) (t : Tree), Good t → p < t.length →
+    (∀ n v, kindAt t p ≠ some (.decl n v)) →
     Good (addDecls t (some p) ds) ∧ Ext t (addDecls t (some p) ds) ∧
     viewB (addDecls t (some p) ds) = (viewB t).map (extB p ds)
-  | [], t, gd, _ => ⟨gd, Ext.refl t, by
+  | [], t, gd, _, _ => ⟨gd, Ext.refl t, by
       simp only [addDecls]; exact (map_eq_self _ _ (fun e _ => extB_nil p e)).symm⟩
-  | (n, v) :: ds, t, gd, hp => by
-    have gd1 := good_addRaw t gd (.decl n v) p hp
+  | (n, v) :: ds, t, gd, hp, hpk => by
+    have gd1 := good_addRaw t gd (.decl n v) p hp hpk
     obtain ⟨g2, e2, v2⟩ := addDecls_B p ds (addRaw t (.decl n v) p).1 gd1 (by rw [addRaw_length]; omega)
+      (by intro n' v'; rw [addRaw_kindAt t _ p p hp]; exact hpk n' v')
     simp only [addDecls, addStmt, Option.getD_some]
     refine ⟨g2, Ext.trans (ext_addRaw t _ p) e2, ?_⟩
     rw [v2, viewB_addDecl t gd n v p hp, List.map_map]
